@@ -105,6 +105,22 @@ def inject_extras(mm: MetaModel, t: Dict, j: Any, depth: int = 0) -> Any:
     return j
 
 
+EXTRAS_STYLE = "plain"  # "plain": clearly foreign keys; "twins": undeclared keys that LOOK like declared ones (other spellings)
+
+
+def _twins(name: str) -> List[str]:
+    """Other spellings of a declared property name (none of them is the wire name): snake_case, Python attribute style with a
+    trailing underscore, Capitalised, UPPER, kebab."""
+    import re
+
+    snake = re.sub(r"(?<=[a-z0-9])([A-Z])", r"_\1", name).lower()
+    out = []
+    for c in (snake, name + "_", snake + "_", name[:1].upper() + name[1:], name.upper(), snake.replace("_", "-"), "_" + name):
+        if c != name and c not in out:
+            out.append(c)
+    return out
+
+
 def _inject_props(mm: MetaModel, props: List[Dict], j: Any, depth: int) -> Any:
     if not isinstance(j, dict):
         return j
@@ -112,6 +128,15 @@ def _inject_props(mm: MetaModel, props: List[Dict], j: Any, depth: int) -> Any:
     bytype = {p["name"]: p["type"] for p in props}
     for kk, vv in j.items():
         out[kk] = inject_extras(mm, bytype[kk], vv, depth + 1) if kk in bytype else vv
+    if EXTRAS_STYLE == "twins":
+        declared = set(bytype)
+        junk = {"verif": ["junk", 1, None]}
+        for p in props:
+            for tw in _twins(p["name"]):
+                if tw not in declared and tw not in out:
+                    # a value that cannot stand for the declared property: if the twin is mistaken for it, the result changes or fails
+                    out[tw] = junk if not isinstance(j.get(p["name"]), dict) else "junk"
+        return out
     out[EXTRA_KEY] = {"nested": [1, None, {"x": "y"}]}
     out[EXTRA_KEY + "2"] = None
     return out
@@ -198,3 +223,45 @@ def norm_decl(mm: MetaModel, d: Decl, j: Dict) -> Dict:
         if p.get("_absent") and out.get(p["name"]) is None:
             out.pop(p["name"], None)
     return out
+
+
+# ---------------------------------------------------------------------------------------------
+# objects reached THROUGH a union-typed property (C11 / C13: hand-written hooks decide what is checked there)
+# ---------------------------------------------------------------------------------------------
+
+
+def union_nested_sites(mm: MetaModel, t: Dict, depth: int = 0):
+    """For a property type that contains a union with at least two non-null alternatives: every structure / literal alternative
+    reachable through unions, aliases and arrays, as (props of the nested object, placement) where placement(nested) is a value
+    of type t that contains `nested` at that alternative's position."""
+    from lib.unions import alternatives
+
+    def has_union(x, d=0) -> bool:
+        x = mm.resolve_alias(x)
+        if d > 6:
+            return False
+        if x["kind"] == "or":
+            return len([i for i in alternatives(mm, x) if not (i["kind"] == "base" and i["name"] == "null")]) >= 2 or any(has_union(i, d + 1) for i in x["items"])
+        if x["kind"] == "array":
+            return has_union(x["element"], d + 1)
+        return False
+
+    if not has_union(t):
+        return
+
+    def walk(x, place, d):
+        x = mm.resolve_alias(x)
+        if d > 6:
+            return
+        k = x["kind"]
+        if k == "or":
+            for it in x["items"]:
+                yield from walk(it, place, d + 1)
+        elif k == "array":
+            yield from walk(x["element"], lambda v, place=place: place([v]), d + 1)
+        elif k == "reference" and x["name"] in mm.structures:
+            yield x, mm.flatten(x["name"]), place
+        elif k == "literal" and x["value"]["properties"]:
+            yield x, mm.literal_props(x), place
+
+    yield from walk(t, lambda v: v, depth)
